@@ -18,6 +18,9 @@ public:
    const char *name() const { return(""); }
    void warnUnexpectedValue(const char *actual) const;
    void warnIncompatibleReference(const GenericOption *ref) const;
+   // the canonical text of the current value (std::string in the real class): an opaque text object, used only through c_str()
+   struct text_shell { const char *c_str() const; };
+   text_shell str() const { text_shell t; return(t); }
    unsigned m_type;                      //@f
 };
 struct Option_signed : GenericOption     //@struct
@@ -43,6 +46,13 @@ struct Option_unsigned : GenericOption   //@struct
    bool     m_bounded;                   //@f
    unsigned m_lo;                        //@f unsigned int
    unsigned m_hi;                        //@f unsigned int
+};
+// (the including translation unit slices `enum class iarf_e` from src/option.h first)
+struct Option_iarf : GenericOption       //@struct
+{
+   iarf_e operator()() const { return(m_val); }
+   iarf_e m_val;                         //@f unsigned int
+   iarf_e m_default;                     //@f unsigned int
 };
 struct Option_bool : GenericOption       //@struct
 {
